@@ -431,6 +431,13 @@ def check_product_accounting(r, repo, rule="R12.3", sizes=(1, 2, 3)):
             from fractions import Fraction
             scaled = sum((y * Fraction(1, 2 ** i) for i, y in enumerate(ys)), Poly.const(0))
             cases.append(("multiply", (xs, ys), {"base": 2}, sx * scaled, f"n=({n1},{n2}) base=2"))
+            # a size limit truncates the renormalized result; it must not remove partial products or summands beforehand (the
+            # package accepts overlapping expansions and expansions with zero items, whose high-order products are not small)
+            for k in (1, 2):
+                cases.append(("multiply", (xs, ys), {"size": k}, sx * sy, f"n=({n1},{n2}) size={k}"))
+                cases.append(("add", (xs, ys), {"size": k}, sx + sy, f"n=({n1},{n2}) size={k}"))
+        for k in (1, 2):
+            cases.append(("square", (xs,), {"size": k}, sx * sx, f"n={n1} size={k}"))
     for fname, seqs, kw, want, tag in cases:
         for functional in (False, True):
             fn = repo.func(AP, fname)
